@@ -33,8 +33,9 @@ def run(ctx):
                             '(5 / "5", Ref("x") / "@x"), falsy ids (0, the empty string), rows without id; after every mutator get()/[] of every key in play, '
                             'on the grid, on slices of it and on filtered grids, with and without intermediate lookups '
                             '(index built / not yet built); a lookup is right when it returns a row that is currently in the grid '
-                            'and whose id has that string form, and KeyError/default exactly when there is none')
-    gridsim.explore(ctx, ROWS, ND, KEYS, rng, thorough)
+                            'and whose id has that string form, and KeyError/default exactly when there is none; plus aliasing probes: a slice / filtered copy and its parent, one of them mutated afterwards, looked up on both')
+    if gridsim.explore(ctx, ROWS, ND, KEYS, rng, thorough):
+        gridsim.alias_probe(ctx, ROWS, KEYS, thorough)
 
 
 def replay(ctx, data):
